@@ -7,13 +7,49 @@ import subprocess
 VERIF = os.path.dirname(os.path.dirname(os.path.abspath(__file__)))
 
 # id -> (technique, level text, level note, design ref)
+COMMON_NOTE = "trusted: harness/src/refimpl (RFC-only decoder/checksums, cross-checked against system zlib by `mzv selftest`), the workload generators, system zlib 1.2.13 as secondary oracle; only the x86_64 code paths compiled here are observed; hooks (feature verif-hooks) are read-only"
+
+def lvl(what):
+    return ("Runtime monitoring of the real code in two build profiles (release; release + debug-assertions + overflow-checks): " + what +
+            " The verdict is 'held on the executions observed' (counts, constructs and suspension states are in the evidence file); it is not a proof.")
+
 CHECKS = {
-    "C01": (
-        "differential round-trip monitor with three independent decoders",
-        "Runtime monitoring: every one-shot compression is executed on the real code in two build profiles and judged by (a) panic capture, (b) the crate's own matching decoder, (c) an RFC-1951 reference decoder sharing no code with the crate and system zlib, (d) byte identity of levels > 10 with level 10. Holds on the executions produced (sizes 0..64 exhaustively, all 256 levels, every boundary size, seeded random sizes), not a proof.",
-        "trusted: harness/src/refimpl (self-tested against system zlib), plaintext generators; only x86_64 code paths",
-        "DESIGN.md §3 C01",
-    ),
+    "C01": ("differential round-trip monitor with three independent decoders",
+            lvl("every one-shot compression (sizes 0..64 exhaustively, all 256 levels, every boundary size, large lazy-parse stress inputs, seeded random sizes) is judged by panic capture, the crate's own decoder, an RFC-1951 reference decoder and system zlib, and levels > 10 must be byte-identical to level 10."),
+            COMMON_NOTE, "DESIGN.md §3 C01"),
+    "C02": ("online call monitor + end-of-history stream oracle over generated call schedules",
+            lvl("call histories over all 880 configurations x 3 APIs x 8 schedule families (1-byte outputs, k-byte outputs, empty chunks, every flush kind, flush while pending...) are monitored call by call (bounds, status) and the concatenated output must be exactly one stream that the reference decoder and zlib decode to the input; the verif_probe hook shows how many suspensions had pending output / a saved lazy match."),
+            COMMON_NOTE, "DESIGN.md §3 C02"),
+    "C03": ("grammar-generated valid streams through 10 decoder entry points, reference-model oracle",
+            lvl("valid streams with the plaintext known by construction (grammar generator covering 11-15 bit codes, one-symbol codes, empty/stored blocks at all 8 alignments, boundary-crossing runs, len 258, dist 32768, overlaps), plus miniz, zlib and file streams, must decode to the plaintext through every entry point; construct coverage is gated from the reference trace."),
+            COMMON_NOTE + "; also built with serde+block-boundary features", "DESIGN.md §3 C03"),
+    "C04": ("fault injection (26 targeted RFC violations + mutators + all prefixes) with reference-decoder soundness oracle",
+            lvl("whenever a decode reports Done/Ok/StreamEnd the reference decoder with the same window semantics must accept the same bytes with the same consumed count and output; targeted single-fault streams are placed early and deep (>= 14 trailing bytes, fast loop active); every proper prefix must end in NeedsMoreInput / FailedCannotMakeProgress."),
+            COMMON_NOTE, "DESIGN.md §3 C04"),
+    "C05": ("hostile call-history fuzzing with panic capture, geometry model, clone-twin and CPU-time watchdog",
+            lvl("hostile histories (independent input slice, flag set, buffer geometry, budget and buffer identity per call) on one decoder object, the streaming wrapper and the vector functions; oracle: no panic, counts in bounds, unusable geometry <=> BadParam without state change (hook fields + never-BadParam'd clone answering identically), Failed sticky, no library call burns > 120 CPU-s."),
+            COMMON_NOTE + "; third variant with block-boundary/serde features", "DESIGN.md §3 C05"),
+    "C06": ("exact-consumption monitor over trailing-data workloads and all entry points incl. the C API",
+            lvl("valid streams followed by 0..64 unrelated bytes are decoded through core flat/ring, inflate() (loop and first-call Finish), tinfl_decompress and mz_inflate under every 2-chunk split / near-end cuts and output budgets that suspend 0..5 bytes before the end; consumed totals must equal the encoded length and nothing may be consumed afterwards."),
+            COMMON_NOTE, "DESIGN.md §3 C06"),
+    "C07": ("schedule-equivalence monitor: exhaustive cut points and budgets vs the one-call run",
+            lvl("for valid, invalid, mutated and truncated inputs the triple (output, final status, consumed) under EVERY single cut point, 1/2/3-byte feeding, budgets {1..5,257..260} and random schedules must equal the one-call run in the same buffer mode (flat, ring 32K/64K); the hook records the distinct (state, status) suspension pairs exercised."),
+            COMMON_NOTE, "DESIGN.md §3 C07"),
+    "C08": ("canary / shadow-buffer monitor around every decode call",
+            lvl("the whole output slice is shadowed and compared after each call; directed histories put a match of every length 3..258 at 7 distance classes -4..+4 bytes around budget end, slice end and ring budget end; status truthfulness (HasMoreOutput => window full, NeedsMoreInput => input consumed) and the limit semantics of the vector functions are asserted."),
+            COMMON_NOTE, "DESIGN.md §3 C08"),
+    "C09": ("exhaustive header enumeration + trailer/body corruption injection + producer framing monitor",
+            lvl("all 65536 two-byte headers are decoded in flat mode and rings 256..65536; trailer corruptions, stored-payload flips and empty payloads run under 7 chunk/budget schedules (incl. zero-length calls and the trailer arriving alone), with and without the ignore flag, through core, inflate() and the vector function; every zlib output of a level x strategy x window_bits x schedule sweep has its header and trailer checked against the reference Adler-32."),
+            COMMON_NOTE, "DESIGN.md §3 C09"),
+    "C10": ("token-trace monitor: reference decoder parses every compressor output, mode rules on the trace",
+            "Runtime monitoring (release build): every one of the 880 configurations is visited repeatedly; the reference decoder's token trace of each output is checked for validity (via acceptance by refimpl and zlib) and for the requested mode (level 0 stored only, HuffmanOnly no match, RLE distance 1, Fixed no dynamic block, Filtered no match < 5), and X++X inputs must shrink below 0.75. Held on the executions observed; not a proof.",
+            COMMON_NOTE + "; Fixed/Filtered rules only asserted for window_bits >= 12 where with_params keeps the requested strategy (documented substitution below 12)", "DESIGN.md §3 C10"),
+    "C11": ("declared-window monitor: CMF vs reference max distance, exact-size ring decode, zlib windowBits=0",
+            "Runtime monitoring (release build): zlib compressors over window_bits 8..15 x levels x strategies on inputs whose only redundancy lies beyond 2^w, plus mid-stream level changes; CINFO, the reference decoder's maximum distance, a decode in a ring of exactly the declared size and zlib told to trust the header must all agree. Held on the executions observed; not a proof.",
+            COMMON_NOTE, "DESIGN.md §3 C11"),
+    "C12": ("flush-point monitor: exact precondition evaluation, prefix-only reference decode, suffix decode after full flush, twin compressors",
+            lvl("directed flush histories over segmented inputs that repeat pre-flush data; at every flush call the property's precondition is evaluated and, when true, the bytes emitted so far alone must decode to all input so far, Sync/Full must end aligned with 00 00 FF FF, the remainder after a Full flush must decode on its own, and [NoSync, Sync] must be equivalent to [Sync]."),
+            COMMON_NOTE, "DESIGN.md §3 C12"),
 }
 
 NOT_APPLICABLE = {
